@@ -65,7 +65,7 @@ class C01(Prop):
         out.append(self.fnx_case(rng, tier))
       else:
         case = leaf_case(rng, tier)
-        if rng.random() < 0.2:
+        if rng.random() < (0.5 if case['dev']['cls'] == 'ADevice' else 0.2):
           make_ints(rng, case)        # integer-typed flows
         cls = case['dev']['cls']
         if cls in SETTABLE and rng.random() < 0.3:
@@ -158,6 +158,17 @@ class C01(Prop):
         return [{'key': {'cls': 'ADevice', 'kind': 'gradient', 'fn': tag},
                  'detail': 'ADevice(%s): deriv[%d]=%.8g but d cost/d s[%d]=%.8g (finite difference) at s=%s p=%s' % (tag, i, g[i], i, num[i], case['s'], case['p'])}]
       return []
+    if case.get('_ints'):
+      # the same flow as integer-typed and as float data must give the same cost and marginal cost (no kink argument needed)
+      dv = self.dev_of(case); p_ = build.price(case['p'])
+      fi = flow_arr(case); ff = np().array(fi, dtype=float)
+      gi = np().array(dv.deriv(fi, p_), dtype=float).reshape(-1); gf = np().array(dv.deriv(ff, p_), dtype=float).reshape(-1)
+      ci = float(dv.cost(fi, p_)); cf = float(dv.cost(ff, p_))
+      self.bump('integer-typed flow vs the same flow as float')
+      if gi.shape != gf.shape or not np().allclose(gi, gf, rtol=1e-9, atol=1e-9, equal_nan=True) or abs(ci - cf) > 1e-9*max(1, abs(cf)):
+        return [{'key': {'cls': d['cls'], 'kind': 'int-flow'},
+                 'detail': '%s: on the integer-typed flow %s deriv=%s cost=%.10g, on the same flow as float deriv=%s cost=%.10g (p=%s)'
+                           % (d['cls'], case['s'], gi.tolist(), ci, gf.tolist(), cf, case['p'])}]
     if not kink_free(case):
       return []
     dev = self.dev_of(case)
@@ -172,7 +183,8 @@ class C01(Prop):
     if bad.any():
       i = int(np().argmax(bad))
       return [{'key': {'cls': d['cls'], 'kind': 'gradient'},
-               'detail': '%s: deriv[%d]=%.8g but d cost/d s[%d]=%.8g (finite difference) at s=%s p=%s' % (d['cls'], i, g[i], i, n[i], case['s'], case['p'])}]
+               'detail': '%s: deriv[%d]=%.8g but d cost/d s[%d]=%.8g (finite difference) at s=%s p=%s%s' % (d['cls'], i, g[i], i, n[i], case['s'], case['p'],
+                         (' [device built with %s, deriv called once, then %s assigned through the setter]' % (case['set0'], {k: d['prm'][k] for k in case['set0']})) if case.get('set0') else '')}]
     return []
 
   def nontrivial(self, case):
